@@ -172,16 +172,33 @@ def run_set(res, harnesses, timeout, mem_gb=16, jobs=None, known=(), hunt=()):
     import threading
     gate = threading.Lock()
 
+    big_lock = threading.Condition()
+    big_state = {"reserved": 0.0}
+    BIG, BIG_TOTAL = 16, 52      # harnesses with a budget above 16 GB reserve it; together they never reserve more than 52 GB
+
     def admitted(h):
         # memory-aware admission: CBMC processes grow for minutes; starting another one while little memory is left
         # makes several of them die of bad_alloc together (seen in the first thorough sweep). One harness starts at a
-        # time, and only when the machine still has room for it.
-        with gate:
-            waited = 0
-            while mem_available_gb() < min(h[2], 12) and waited < 1800:
-                time.sleep(5)
-                waited += 5
-        return run_harness(h[0], h[1], h[2])
+        # time, and only when the machine still has room for it. Harnesses with a large budget (> 16 GB) additionally
+        # reserve it, so that e.g. a 48 GB and two 24 GB schedules do not run at the same time.
+        big = h[2] > BIG
+        if big:
+            with big_lock:
+                while big_state["reserved"] > 0 and big_state["reserved"] + h[2] > BIG_TOTAL:
+                    big_lock.wait(timeout=30)
+                big_state["reserved"] += h[2]
+        try:
+            with gate:
+                waited = 0
+                while mem_available_gb() < min(h[2], 12) and waited < 1800:
+                    time.sleep(5)
+                    waited += 5
+            return run_harness(h[0], h[1], h[2])
+        finally:
+            if big:
+                with big_lock:
+                    big_state["reserved"] -= h[2]
+                    big_lock.notify_all()
 
     with ThreadPoolExecutor(jobs) as ex:
         results = list(ex.map(admitted, items))
